@@ -284,6 +284,41 @@ def default_threshold(v):
         r.w.close()
 
 
+def nonce_lengths(v):
+    """The cookie rule holds for every nonce a peer may send (RFC 7296 2.10 / 3.9: 16 .. 256 octets), the edges included: over the threshold the cookie-less
+    request draws a COOKIE notification and nothing else, the same request with that cookie is admitted, and the cookie is not accepted with a nonce of another
+    length that starts with the same octets.  (`Cookie.tla` Input: the nonce's length is part of what the cookie binds.)"""
+    n = 0
+    for src, ln in (('A', 16), ('A', 17), ('A', 255), ('A', 256), ('C', 16), ('C', 256), ('A', 128)):
+        r = Responder(0, seed=common.SEED)
+        try:
+            spi, nonce = b'\x53' * 8, bytes((i * 7 + ln) % 256 for i in range(ln))
+            reply, dh, left = r.send(init_request(spi, nonce, []), src)
+            kind, ck = r.classify(reply)
+            n += 1
+            if kind != 'COOKIE' or dh or left:
+                v.violation(f'over the threshold a cookie-less request with a nonce of {ln} octets is answered with {kind} ({dh} DH computations, {left} IKE_SAs left), '
+                            'not with a COOKIE notification alone', {'nonce_octets': ln, 'source': src}, signature={'component': 'nonce-length', 'what': 'no-cookie'})
+                continue
+            other = nonce[:-1] if ln > 16 else nonce + b'\x00'
+            reply, dh, left = r.send(init_request(spi, other, [ck]), src)
+            kind2, _ = r.classify(reply)
+            if kind2 != 'COOKIE' or dh or left:
+                v.violation(f'the cookie for a nonce of {ln} octets is accepted with a nonce of {len(other)} octets ({kind2})', {'nonce_octets': ln},
+                            signature={'component': 'nonce-length', 'what': 'other-length'})
+                continue
+            reply, dh, left = r.send(init_request(spi, nonce, [ck]), src)
+            kind3, _ = r.classify(reply)
+            if kind3 != 'INIT_OK':
+                v.violation(f'the request with a nonce of {ln} octets and the right cookie is answered with {kind3}, not admitted', {'nonce_octets': ln},
+                            signature={'component': 'nonce-length', 'what': 'not-admitted'})
+        except wd.Escape as ex:
+            v.violation(f'nonce of {ln} octets over the threshold: {ex}', {}, signature={'component': 'nonce-length', 'what': 'escape'})
+        finally:
+            r.w.close()
+    v.coverage['nonce_length_cases'] = n
+
+
 def run(tier, replay=None):
     v = common.Verdict('C18', tier, 'model_checking')
     if replay:
@@ -291,5 +326,6 @@ def run(tier, replay=None):
     ikeprop.run(v, ['init_cookie'] if tier == 'quick' else ['init_cookie', 'init3'], limit=2500 if tier == 'quick' else None)
     input_collision(v, vectors_check(v, tier))
     initiator_side(v, tier)
+    nonce_lengths(v)
     default_threshold(v)
     return v.finish()
